@@ -273,7 +273,7 @@ theorem find?_none_of_not_mem_map {α : Type} (key : α → Nat) {l : List α} {
   exact h (by simp only [List.mem_map]; exact ⟨w, hw, heq⟩)
 
 /-- No Eid occurs twice in the query (`IndexedQuery::try_from` refuses anything else). -/
-def EidsDistinct (ir : IRQuery) : Prop := (allEids ir).Nodup
+def EidsDistinct (ir : IRQuery) : Prop := (IRQuery.allEids ir).Nodup
 
 instance (ir : IRQuery) : Decidable (EidsDistinct ir) := inferInstanceAs (Decidable (List.Nodup _))
 
